@@ -111,7 +111,7 @@ func (t *termer) term(v ssa.Value, d int) string {
 	}
 	switch v := v.(type) {
 	case *ssa.Parameter:
-		if s := siteOf(v.Parent()); s != nil && rawTop(v.Parent()) == v.Parent() {
+		if s := siteOf(v.Parent()); s != nil {
 			for i, par := range v.Parent().Params {
 				if par == v && i < len(s.Call.Args) {
 					return t.term(s.Call.Args[i], d+1)
